@@ -10,7 +10,7 @@ import json, os, shutil, subprocess, sys
 
 pid = sys.argv[1]
 label = sys.argv[2] if len(sys.argv) > 2 else pid
-wt = f"/tmp/seed/{pid}"
+wt = os.path.join(os.environ.get("SEED_DIR", "/tmp/seed"), pid)
 out = f"{wt}/_out"
 env = dict(os.environ, PYTHONPATH=f"{wt}/src")
 PY = "/venv/bin/python"
@@ -57,7 +57,7 @@ os.makedirs(dst, exist_ok=True)
 shutil.copy(f"{out}/patch.diff", dst)
 shutil.copy(f"{out}/demo.py", dst)
 meta.update(confirmed_by_us=confirmed, checks=results,
-            what_we_ran=[f"cd /tmp/seed/{pid} && PYTHONPATH=src /venv/bin/python -m pytest -q (with the patch)", "demo.py with and without the patch",
+            what_we_ran=[f"cd {wt} && PYTHONPATH=src /venv/bin/python -m pytest -q (with the patch)", "demo.py with and without the patch",
                          f"git -C /repo apply patch.diff; ./check {pid} --tier quick; git -C /repo checkout -- ."],
             caught=any(r["exit"] == 1 for r in results.values()),
             caught_with_failing_input=any(r["exit"] == 1 and not any("no-failing-input-found" in t for t in r["tail"]) for r in results.values()))
